@@ -1,8 +1,8 @@
 package main
 
 import (
-	"go/ast"
 	"fmt"
+	"go/ast"
 	"go/types"
 	"sort"
 	"strings"
@@ -52,31 +52,35 @@ func (s flagState) joinFrom(o flagState) bool {
 }
 
 type catchAnalysis struct {
-	P      *Prog
-	flags  []*types.Var
-	memo   map[*ssa.Function]map[int]map[*types.Var]bool // fn -> param idx -> flags dirty at exit (given clean entry)
-	busy   map[*ssa.Function]bool
-	summReady bool
-	addCond bool // (*SchemaCtx).AddIssue sets Exit only under CanCatch
-	addIssue *ssa.Function
-	ctors  map[*ssa.Function]fieldSet // constructor -> flags definitely stored false
-	cleanMemo map[*ssa.Function]map[int]map[*types.Var]bool // fn -> param idx -> flags definitely false at exit whatever the entry
-	cleanBusy map[*ssa.Function]bool
-	addIssueFlags   map[*types.Var]bool   // flags AddIssue (or an unexported helper of it) can set
+	P               *Prog
+	viaValue        map[ssa.Instruction]string // dynamic calls that can dispatch into a node method
+	flags           []*types.Var
+	memo            map[*ssa.Function]map[int]map[*types.Var]bool // fn -> param idx -> flags dirty at exit (given clean entry)
+	busy            map[*ssa.Function]bool
+	summReady       bool
+	addCond         bool // (*SchemaCtx).AddIssue sets Exit only under CanCatch
+	addIssue        *ssa.Function
+	ctors           map[*ssa.Function]fieldSet                    // constructor -> flags definitely stored false
+	cleanMemo       map[*ssa.Function]map[int]map[*types.Var]bool // fn -> param idx -> flags definitely false at exit whatever the entry
+	cleanBusy       map[*ssa.Function]bool
+	addIssueFlags   map[*types.Var]bool    // flags AddIssue (or an unexported helper of it) can set
 	addIssueHelpers map[*ssa.Function]bool // unexported SchemaCtx methods called from AddIssue
 }
 
 type dispatchSite struct {
-	fn     *ssa.Function
-	in     ssa.CallInstruction
-	callee string
-	ctx    ssa.Value
-	dirty  []*types.Var
+	fn         *ssa.Function
+	in         ssa.CallInstruction
+	callee     string
+	ctx        ssa.Value
+	dirty      []*types.Var
 	inMapRange bool
 	// kind: "dispatch" (a child node is entered) or an own-use of the context:
 	// "addissue", "callback" (a dynamic call receiving the context), "exit-test"
 	kind string
 	at   ssa.Instruction
+	// kind "helper-call": a static call of a module function that is handed the context
+	calleeFn *ssa.Function
+	argIdx   int
 }
 
 func (P *Prog) newCatchAnalysis() *catchAnalysis {
@@ -342,7 +346,53 @@ func (ca *catchAnalysis) dispatchCallee(ci *callInfo) (string, bool) {
 			}
 		}
 	}
+	// a node method called through a func value: `exec(ctx)` where exec is `child.process`, `ZogSchema.validate`
+	// or `(*StringSchema).process` handed to an iteration helper
+	if ci.dynamic {
+		if name, ok := ca.dispatchThroughValue(ci); ok {
+			return name, true
+		}
+	}
 	return "", false
+}
+
+// dispatchThroughValue: the func value called can be a node method (traced through parameters to the call
+// sites' arguments, through locals and through the wrappers of method values and method expressions).
+func (ca *catchAnalysis) dispatchThroughValue(ci *callInfo) (string, bool) {
+	if ca.viaValue == nil {
+		ca.viaValue = map[ssa.Instruction]string{}
+	}
+	in := ci.instr.(ssa.Instruction)
+	if name, ok := ca.viaValue[in]; ok {
+		return name, name != ""
+	}
+	ca.viaValue[in] = ""
+	// only calls that are handed a node context can be dispatches
+	hasCtx := false
+	for _, a := range ci.instr.Common().Args {
+		if ca.isCtxVal(a) {
+			hasCtx = true
+		}
+	}
+	if !hasCtx {
+		return "", false
+	}
+	R := ca.P.roles
+	ft := &funcTracer{P: ca.P, seen: map[ssa.Value]bool{}, out: map[*ssa.Function]bool{}}
+	ft.trace(ci.instr.Common().Value, 0)
+	name := ""
+	for f := range ft.out {
+		if _, ok := R.Dispatch[f]; ok {
+			name = "func value → " + fname(f)
+		}
+	}
+	for _, m := range ft.invokes {
+		if m.Name() == R.MProcess || m.Name() == R.MValidate {
+			name = "func value → ZogSchema." + m.Name()
+		}
+	}
+	ca.viaValue[in] = name
+	return name, name != ""
 }
 
 // run analyses fn; returns the dispatch sites (with dirty flags) and the state
@@ -376,6 +426,11 @@ func (ca *catchAnalysis) run(fn *ssa.Function, init flagState) ([]dispatchSite, 
 	}
 	sitesAt := map[ssa.Instruction]*dispatchSite{}
 	usesAt := map[ssa.Instruction]*dispatchSite{}
+	type helperKey struct {
+		in ssa.Instruction
+		ai int
+	}
+	helperCalls := map[helperKey]*dispatchSite{}
 	exit := flagState{}
 	mapRangeBlocks := mapRangeBodies(fn)
 	changed := true
@@ -510,6 +565,30 @@ func (ca *catchAnalysis) run(fn *ssa.Function, init flagState) ([]dispatchSite, 
 						case ci.dynamic:
 							useKind = "callback"
 						}
+						if useKind == "" && !isDisp && ci.static != nil && ci.static.Blocks != nil && inModule(funcPkgPath(ci.static)) && ci.static != ca.addIssue {
+							if _, isCtor := ca.ctors[ci.static]; !isCtor {
+								// the state the context is in when a helper receives it: the entry state of the
+								// helper's own dispatches (allDispatchSites)
+								hc := helperCalls[helperKey{ins, ai}]
+								if hc == nil {
+									hc = &dispatchSite{fn: fn, in: ci.instr, callee: fname(ci.static), ctx: av, kind: "helper-call", at: ins, calleeFn: ci.static, argIdx: ai}
+									helperCalls[helperKey{ins, ai}] = hc
+								}
+								for _, fl := range ca.flags {
+									if cur[fl] {
+										has := false
+										for _, e := range hc.dirty {
+											if e == fl {
+												has = true
+											}
+										}
+										if !has {
+											hc.dirty = append(hc.dirty, fl)
+										}
+									}
+								}
+							}
+						}
 						if useKind != "" {
 							us := usesAt[ins]
 							if us == nil {
@@ -581,6 +660,15 @@ func (ca *catchAnalysis) run(fn *ssa.Function, init flagState) ([]dispatchSite, 
 							for fl := range dirtyOut {
 								cur[fl] = true
 							}
+						case ci.dynamic && isDisp:
+							// a node method called through a func value: whatever any node can leave behind
+							for _, kinds := range []map[string]*ssa.Function{R.Process, R.Validate} {
+								for _, k := range sortedKeys(kinds) {
+									for fl := range ca.exitDirty(kinds[k], 1) {
+										cur[fl] = true
+									}
+								}
+							}
 						case ci.dynamic:
 							// a callback receiving the context may call ctx.AddIssue
 							ca.applyAddIssue(cur)
@@ -605,7 +693,10 @@ func (ca *catchAnalysis) run(fn *ssa.Function, init flagState) ([]dispatchSite, 
 	for _, us := range usesAt {
 		sites = append(sites, *us)
 	}
-	sort.Slice(sites, func(i, j int) bool {
+	for _, hc := range helperCalls {
+		sites = append(sites, *hc)
+	}
+	sort.SliceStable(sites, func(i, j int) bool {
 		a, b := sites[i].at, sites[j].at
 		if a.Parent() != b.Parent() {
 			return fname(a.Parent()) < fname(b.Parent())
@@ -793,19 +884,88 @@ func flagNames(fs []*types.Var) string {
 // allDispatchSites runs the analysis over every module function that contains
 // a dispatch call.
 func (P *Prog) allDispatchSites(ca *catchAnalysis) []dispatchSite {
-	var out []dispatchSite
+	R := P.roles
+	hasDispatch := map[*ssa.Function]bool{}
 	for _, fn := range P.Funcs {
-		has := false
 		eachInstr(fn, func(_ *ssa.BasicBlock, _ int, in ssa.Instruction) {
 			if _, ok := ca.dispatchCallee(callOf(in)); ok {
-				has = true
+				hasDispatch[fn] = true
 			}
 		})
-		if !has {
+	}
+	// A node function is entered through a dispatch, and every dispatch is shown to hand over a clean context:
+	// it starts clean (induction over the dispatches). A *helper* that dispatches on a context it is given
+	// (`subCtx.RunChild(key, data, ptr, child.process)`, `eachItem(sub, n, visit, at)`) is entered by a plain call,
+	// from inside a loop, with whatever the previous child left on the context: its entry state is the join of
+	// the states at its call sites. Computed to a fixpoint (helpers calling helpers).
+	isNode := func(fn *ssa.Function) bool {
+		if _, ok := R.Dispatch[fn]; ok {
+			return true
+		}
+		for _, pl := range R.Pipelines {
+			if pl == fn {
+				return true
+			}
+		}
+		return false
+	}
+	entry := map[*ssa.Function]flagState{}
+	runWith := func(fn *ssa.Function) []dispatchSite {
+		if fn.Parent() != nil || entry[fn] == nil {
+			return ca.runRepeatable(fn)
+		}
+		sites, _ := ca.run(fn, entry[fn])
+		return sites
+	}
+	for iter := 0; iter < 4; iter++ {
+		grown := false
+		for _, caller := range P.Funcs {
+			touches := false
+			for _, p := range caller.Params {
+				if ca.isCtxVal(p) {
+					touches = true
+				}
+			}
+			if !touches && !hasDispatch[caller] {
+				// contexts can also be locals (constructor results): cheap test on the instructions
+				eachInstr(caller, func(_ *ssa.BasicBlock, _ int, in ssa.Instruction) {
+					if v, ok := in.(ssa.Value); ok && ca.isCtxVal(v) {
+						touches = true
+					}
+				})
+			}
+			if !touches {
+				continue
+			}
+			for _, s := range runWith(caller) {
+				if s.kind != "helper-call" || s.calleeFn == nil || !hasDispatch[s.calleeFn] || isNode(s.calleeFn) || s.argIdx >= len(s.calleeFn.Params) {
+					continue
+				}
+				prm := ssa.Value(s.calleeFn.Params[s.argIdx])
+				if entry[s.calleeFn] == nil {
+					entry[s.calleeFn] = flagState{}
+				}
+				if entry[s.calleeFn][prm] == nil {
+					entry[s.calleeFn][prm] = map[*types.Var]bool{}
+				}
+				for _, fl := range s.dirty {
+					if !entry[s.calleeFn][prm][fl] {
+						entry[s.calleeFn][prm][fl] = true
+						grown = true
+					}
+				}
+			}
+		}
+		if !grown {
+			break
+		}
+	}
+	var out []dispatchSite
+	for _, fn := range P.Funcs {
+		if !hasDispatch[fn] {
 			continue
 		}
-		sites := ca.runRepeatable(fn)
-		for _, s := range sites {
+		for _, s := range runWith(fn) {
 			if s.kind == "dispatch" {
 				out = append(out, s)
 			}
@@ -881,7 +1041,7 @@ func (P *Prog) ownUseSites(ca *catchAnalysis) []dispatchSite {
 		}
 		sites, _ := ca.run(fn, nil)
 		for _, s := range sites {
-			if s.kind != "dispatch" {
+			if s.kind != "dispatch" && s.kind != "helper-call" {
 				out = append(out, s)
 			}
 		}
